@@ -49,6 +49,23 @@ def mk(bits, side=L):
     return Buffer((v << ((8 - n % 8) % 8)).to_bytes(nb, 'big'), n, R)
 
 
+def mkj(rnd, bits, side=L, p=0.3):
+    """Like mk, but (with probability p) the constructor is given more than it needs, as callers do (`Buffer(content=b'\\x0c', length=0)`
+    appears in the library's own tests): surplus bytes before (left padding) or after (right padding) the value, and non-zero
+    padding bits.  The constructor must normalise all of it away."""
+    if rnd.random() >= p:
+        return mk(bits, side)
+    n = len(bits)
+    pad = (8 - n % 8) % 8
+    junk = rnd.randbytes(rnd.randint(0, 2)) if (n or rnd.random() < 0.5) else bytes([rnd.randrange(1, 256)])
+    fill = ''.join(rnd.choice('01') for _ in range(pad))
+    if side == 'left':
+        body = fill + bits
+        return Buffer(junk + (int(body, 2).to_bytes(len(body) // 8, 'big') if body else b''), n, L)
+    body = bits + fill
+    return Buffer((int(body, 2).to_bytes(len(body) // 8, 'big') if body else b'') + junk, n, R)
+
+
 def mkraw(content, length, side, pl=None):
     """Build a Buffer object with exactly these fields (bypassing the constructor's normalisation)."""
     b = Buffer(b'', 0, side)
